@@ -18,13 +18,13 @@ from explore import expect, conc, Violation
 PROPERTY = 'C17'
 CICADA = os.path.join(hsupport.VERIF, 'build/bin/debug/cicada')
 HELPERS = os.path.join(hsupport.VERIF, 'helpers/bin')
-BUDGET = {'quick': 900, 'thorough': 3000}
-BOUNDS = {'quick': dict(name_len=1, s_len=1), 'thorough': dict(name_len=2, s_len=2)}
+BUDGET = {'quick': 900, 'thorough': 1500}
+BOUNDS = {'quick': dict(name_len=1, s_len=1), 'thorough': dict(name_len=2, s_len=1)}
 ASSUMPTIONS = [
     'inductive step: table {o -> `oo x`} (+ optionally an older definition of the same name = redefinition) -> one `alias NAME=VALUE` line; NAME: name_len symbolic characters of [A-Za-z0-9_.-]; VALUE: templates {S | "S" S | S | S (pipe) | o S (other alias) | NAME -S (itself)} with S = s_len symbolic characters, written in single quotes, double quotes or bare',
     'S excludes both quote characters (the templates supply balanced quotes of the other kind), $ ` \\ ! ; & ( ) # and every white space except the blank (substitutions and list operators inside alias values are outside the property\'s alphabet; other white space only matters through trimming of the reference line); bare values additionally exclude blank | < > * ? [ ] { } ~ =',
     'use shapes: `N a1`, `c0 | N a1`, `c0 N` (must stay), `c0 ; N a1`, `c0 && N`, `N | N`, `c0 a1 | c1 N`, `c0 "|" N` and `c0 \'|\' N a1` (a quoted bar is an argument: N must stay); the reference side is the same real code run on the line with the value text written in place of N, alias table empty (so replacement is applied once)',
-    'values that tools::is_arithmetic classifies as arithmetic lines are excluded (C19)',
+    'names and values that tools::is_arithmetic classifies as arithmetic lines (`-0`, `1-1`, `0 - `) are excluded (C19)',
     'core::run_pipeline is a harness function (alias / unalias -> real builtins in capture mode; other lines recorded); glob answers empty; execution of the plan is C01/C02',
 ]
 WS = "\t\n\r\x0b\x0c\x85\xa0\u1680\u2000\u2001\u2002\u2003\u2004\u2005\u2006\u2007\u2008\u2009\u200a\u2028\u2029\u202f\u205f\u3000"
@@ -129,6 +129,8 @@ def body(inst, b):
         for w in ('o', 'c0', 'c1', 'a1', 'oo', 'x'):
             if len(w) == len(name): I.ctx.assume(z3.Not(str_eq(name, lit(w))) if is_sym(str_eq(name, lit(w))) else True)
         I.h_name = name
+        if hlib.truthy(I, I.call_fn('is_arithmetic', [tuple(name)])):
+            I.ctx.assume(False)          # a name like `-0` or `1-1` is an arithmetic line for cicada (C19), not a command word
         def run(sh_cell, line, capture=False):
             return I.call_fn('run_command_line', [Ref(sh_cell, 0), tuple(line), False, capture])
         if kind == 'usage':
